@@ -199,7 +199,7 @@ Definition regression_cases : list plan :=
    PQuery QProjection [PQuery QSubquery [PCopy LFresh select1]]].
 
 Definition all_ifaces : list iface :=
-  [ISqlHttp; ISqlIndexed; IStreaming; IFlightInfo; IFlightPrepare; IFlightPrepareGrpc].
+  [ISqlHttp; ISqlIndexed; IStreaming; IFlightInfo; IFlightPrepare; IFlightPrepareGrpc; IExecuteStream].
 
 Theorem regression_cases_rejected :
   forallb (fun p => forallb (fun i => match submit i [p] with (false, []) => true | _ => false end) all_ifaces)
